@@ -612,7 +612,10 @@ def opRegNet (sh : Int) (a : List Int) (o : Option Obs) : String :=
           for i in [0:n] do
             for c in [0:k] do
               if matMul n M beta i c ≠ R i c then v := v.fail s!"gaussSolve violates M*alpha = rhs at ({i},{c})"
-              if rabs (got i c - beta i c) ≤ (1 / 1000000) * (1 + mx) then v := { v with tol := v.tol + 1 }
+              -- forward comparison only in the Cholesky branch: the other branch is taken exactly when the system is
+              -- ill-conditioned (noise/max diag < 1e-5), there the residual and the gradient above are what is checked
+              if semi then v := v.tag "ill-conditioned-forward-comparison-skipped"
+              else if rabs (got i c - beta i c) ≤ (1 / 1000000) * (1 + mx) then v := { v with tol := v.tol + 1 }
               else v := v.fail s!"alpha[{i},{c}]: model {showRat (beta i c)} impl {showRat (got i c)}"
           -- the gradient of the regularised risk at the returned coefficients (model `regnetGradient`)
           for c in [0:k] do
